@@ -236,6 +236,52 @@ def validate(lines, wd, name="AtomicTrace"):
     raise Inconclusive("AtomicTrace validation failed to run: %s %s" % (r.error, r.violated))
 
 
+DETAIL = {"Invoke", "RulerEnter", "PreLock", "LockAcq", "PostLock", "Fetch", "Store", "Unlock", "RulesExit", "Respond"}
+
+
+def project_detail(sid, evs, lines):
+    """Detailed (layer D) projection: one line per Signer.tla action, logged fields kept."""
+    lines.append(dict(ev="Begin", sc=sid))
+    for ev in evs:
+        e = ev["ev"]
+        if e not in DETAIL and not (e == "Export" and ev.get("r") == "final"):
+            continue
+        if e == "Invoke":
+            lines.append(dict(ev="Invoke", r=ev["r"], kind=ev["kind"], ents=[dict(k=x["k"], s=x["s"], t=x["t"], slot=x["slot"] if ev["kind"] == "prop" else -1,
+                                                                                root=x["root"]) for x in ev["ents"]]))
+        elif e in ("Fetch", "Store"):
+            lines.append(dict(ev=e, r=ev["r"], k=ev["k"], kind=ev.get("kind", "att"), s=ev.get("s", -1), t=ev.get("t", -1), slot=ev.get("slot", -1)))
+        elif e in ("LockAcq", "Unlock"):
+            lines.append(dict(ev=e, r=ev["r"], k=ev["k"]))
+        elif e in ("RulerEnter", "PreLock", "PostLock"):
+            lines.append(dict(ev=e, r=ev["r"]))
+        elif e == "RulesExit":
+            lines.append(dict(ev=e, r=ev["r"], res=ev["res"]))
+        elif e == "Respond":
+            lines.append(dict(ev=e, r=ev["r"], res=ev["res"]))
+        elif e == "Export":
+            lines.append(dict(ev="Export", db={k: dict(s=stored(v["as"]), t=stored(v["at"]), ps=stored(v["ps"])) for k, v in ev["db"].items()}))
+
+
+def validate_detail(lines, reqs, wd, name="SignerTrace"):
+    """Validate detailed traces against Signer.tla; returns (accepted, furthest line, TlcResult)."""
+    rundir = os.path.join(wd, name)
+    os.makedirs(rundir, exist_ok=True)
+    with open(os.path.join(rundir, "trace.ndjson"), "w") as fh:
+        for ln in lines:
+            fh.write(json.dumps(ln) + "\n")
+    c = sconsts("Opposite", sorted(reqs), ["k0", "k1", "k2"])
+    c["Catalog"] = Raw("<- NoCatalog")
+    c["TraceFile"] = "trace.ndjson"
+    cfg = make_cfg(c, spec="TraceSpec", constraint="HighWater", postcondition="Accepted")
+    r = tlc("SignerTrace", cfg, wd, name=name, workers=1, timeout=1500, dump_trace=False, java_opts="-Dtlc2.tool.queue.IStateQueue=StateDeque -Xss64m")
+    if r.ok:
+        return True, None, r
+    if r.violated == "postcondition":
+        return False, None, r
+    raise Inconclusive("SignerTrace validation failed to run: %s %s" % (r.error, r.violated))
+
+
 def first_rejected(lines, index, wd):
     """Find the first scenario whose history is not linearizable (validate scenario by scenario, bisecting)."""
     lo, hi = 0, len(index)
@@ -378,6 +424,60 @@ def run(prop, tier, seed):
                 verdict.violation("nonlinearizable:" + sid, "history of scenario %s is not linearizable w.r.t. the sequential rules" % sid,
                                   dict(scenario=sc, trace=lines[a - 1:b_]))
             sample = lines[index[0][0] - 1:index[0][1]] if index else []
+            # layer D: the detailed traces must be behaviours of Signer.tla (DRIFT signal, never a verdict)
+            dlines, dindex, reqs = [], [], set()
+            for sc in scenarios:
+                sid = sc["id"]
+                if sid in dl or sid not in all_events:
+                    continue
+                st_ = len(dlines) + 1
+                project_detail(sid, all_events[sid], dlines)
+                dindex.append((st_, len(dlines), sid))
+                reqs |= {o["id"] for o in sc["ops"][0]["ops"]}
+            dok, _, dr = validate_detail(dlines, reqs, wd)
+            info["states"] += dr.distinct
+            info["transitions"] += dr.generated
+            detail_drift = None
+            if not dok:
+                # locate the first scenario that Signer.tla cannot explain
+                lo, hi = 0, len(dindex)
+                while hi - lo > 1:
+                    mid = (lo + hi) // 2
+                    okm, _, _ = validate_detail(dlines[dindex[lo][0] - 1:dindex[mid - 1][1]], reqs, wd, name="SignerTraceBisect")
+                    if okm:
+                        lo = mid
+                    else:
+                        hi = mid
+                detail_drift = dict(scenario=dindex[lo][2], note="detailed trace is not a behaviour of Signer.tla")
+                drift.append(detail_drift)
+            # binding self-test: a corrupted field / a removed event must be rejected, else the trace specifications constrain nothing
+            selftest = {}
+            if dok and dindex:
+                a, b, _ = next((x for x in dindex if any(l_["ev"] == "Store" for l_ in dlines[x[0] - 1:x[1]])), dindex[0])
+                seg = [dict(x) for x in dlines[a - 1:b]]
+                c1 = [dict(x) for x in seg]
+                for x in c1:
+                    if x["ev"] == "Store":
+                        x["t"] = x["t"] + 1 if x["kind"] != "prop" else x["t"]
+                        x["slot"] = x["slot"] + 1 if x["kind"] == "prop" else x["slot"]
+                        break
+                c2 = [dict(x) for x in seg]
+                for i_, x in enumerate(c2):
+                    if x["ev"] == "LockAcq":
+                        del c2[i_]
+                        break
+                selftest["store_value_corrupted_rejected"] = not validate_detail(c1, reqs, wd, name="SignerTraceSelf1")[0]
+                selftest["lock_event_removed_rejected"] = not validate_detail(c2, reqs, wd, name="SignerTraceSelf2")[0]
+                pa, pb, _ = next((x for x in index if any(l_["ev"] == "Respond" and "SUCCEEDED" in l_["res"] for l_ in lines[x[0] - 1:x[1]])), index[0])
+                c3 = [json.loads(json.dumps(x)) for x in lines[pa - 1:pb]]
+                for x in c3:
+                    if x["ev"] == "Respond" and "SUCCEEDED" in x["res"]:
+                        x["res"][x["res"].index("SUCCEEDED")] = "DENIED"
+                        break
+                selftest["response_flipped_rejected_by_AtomicTrace"] = not validate(c3, wd, name="AtomicTraceSelf")[0]
+                if not all(selftest.values()):
+                    raise Inconclusive("binding self-test failed: a corrupted trace was accepted (%s)" % selftest)
+            info["detail"] = dict(detailed_traces=len(dindex), detailed_events=len(dlines), accepted=dok, first_unexplained=detail_drift, binding_selftest=selftest)
         rc = verdict.finish()
         gated = [s for s in scenarios if s["ops"][0].get("gate")]
         cov = dict(states=info["states"], transitions=info["transitions"], traces_validated_against_impl=len(all_events),
@@ -387,7 +487,7 @@ def run(prop, tier, seed):
                    model_runs=info["model_runs"], mutants=info["mutants"], mutants_expected=len(MUTANTS[prop]), mutants_killed=len(info["mutants"]),
                    schedules_imposed=len(gated), free_running_groups=len(scenarios) - len(gated),
                    schedules_with_deviation=ndev, blocked_observations=nblocked, deadlocks_observed=len(deadlocks),
-                   drift=drift[:10], drift_count=len(drift), exhaustive=False,
+                   drift=drift[:10], drift_count=len(drift), exhaustive=False, layer_d_trace_validation=info.get("detail"),
                    checker_cmd="tlc MCSigner / SignerSim / AtomicTrace (see lib/concfamily.py)")
         write_evidence(prop, tier, seed, "model_checking", cov, time.time() - t0, violations=len(verdict.violations),
                        assumptions=["gates at locker calls and Store hooks are the only scheduling points that matter for the slashing records",
